@@ -41,6 +41,27 @@ and horizon IN FORCE at the call and on nothing else (the step theorems take the
    judged: the same laws, no two replicates with identical event times; a missing dask is tagged, not judged;
  * (a) identities for the seed argument of rexp (the form the parallel path uses): seed=True gives fresh variates that leave the
    global generator alone, an integer seed / a RandomState / False are what the docstring says; the law of rexp(1, r, seed=True).
+
+Boundaries and secondary paths (third seeded round).  The law is a statement about the state at EVERY requested time:
+ * the time argument of a statistical case comes from a PLAN that is cycled over the cases of a run (CHAIN_TIME_PLAN, SIR_TIME_PLAN):
+   number / numpy float64 / float32 / int / one-element list or tuple (raw path), and GRIDS that start at t0, after t0 (the tail of a
+   linspace, three points), consist of one point (ndarray), are non-uniform, repeat a time, repeat t0, contain a point before t0, are
+   integer-valued; as ndarray (float64, float32, int) / list / tuple.  Chains: multinomial occupancy at every distinct requested time
+   >= t0 (at t0 itself the law is the point mass at the initial state), equal rows at equal times, source compartments never grow and
+   sinks never shrink along a path.  SIR: final size at the last requested time, at every earlier time the probability of still being
+   in the initial state (exp(-total rate (t - t0)): every event changes the state for good), the state space, S never grows, R never
+   shrinks, the initial state at t0.  A requested time BEFORE t0 is outside the property (tag, row not judged);
+ * raw output: the first step of every run has the one-step law at the initial state up to the horizon (no event by the horizon
+   with probability exp(-R d), first event e by then with probability r_e / R (1 - exp(-R d)), the waiting time in the part below d of
+   each octile of Exp(R); a step recorded beyond the horizon counts as no event) - the property's first sentence;
+ * 30 % of the chain families declare, BEFORE the events that fire, an event whose rate parameter is 0: its occupancy law is unchanged
+   and it must never be booked in the returned counts; the clock replay tags steps whose fired event comes after a zero-rate one;
+ * horizons of 5 and 12 expected jumps per individual: most paths are absorbed before the horizon (the last event must be kept);
+ * the judged batch is made of calls of 500 / 250 / 7 / 1 iterations (CHUNKS);
+ * BOUNDARY cases (few runs, deterministic): horizon / grid ending AT t0 (number, one-element list, one-point ndarray, [t0, t0], a grid
+   from before t0 to t0): every reported state is the initial state; a horizon before t0 is tagged and not judged.
+All cells of a case share the case's level (a case with more requested times has more, narrower cells): the total false-alarm
+probability of a run is unchanged (ALPHA_TOTAL over chain + SIR + identity + parallel + boundary cases).
 """
 import copy
 import math
@@ -61,21 +82,25 @@ LEAN = {"module": "Pygom.Props.C05",
                      "Pygom.C05.model_choice_law", "Pygom.C05.firstMin_cast", "Pygom.C05.first_min_iff",
                      "Pygom.C05.stepProbs_sum_to_one", "Pygom.C05.finalSizePMF_sums_to_one", "Pygom.C05.finalSizePMF_nonneg"]}
 BUDGET = {"quick": {"identity": 16, "pairs": 25, "law_draws": 20000, "seeded_draws": 1500, "replay": 48, "chain": 32, "sir": 16, "runs": 6000,
-                    "par": 4, "par_runs": 500, "warm": 200},
+                    "par": 4, "par_runs": 500, "warm": 200, "boundary": 8, "boundary_runs": 40},
           "thorough": {"identity": 64, "pairs": 100, "law_draws": 200000, "seeded_draws": 6000, "replay": 640, "chain": 160, "sir": 80,
-                       "runs": 20000, "max_steps": 2000, "par": 16, "par_runs": 1500, "warm": 400}}
+                       "runs": 20000, "max_steps": 2000, "par": 16, "par_runs": 1500, "warm": 400, "boundary": 32, "boundary_runs": 100}}
 CASE_TIMEOUT = 900
 RULE = ("identity: random (seed, rate) pairs, rates log-uniform in [1e-3, 1e3]; replay: bounded-rate event models of the shared "
         "generator (zero-rate events, 1-5 states/events, multi-transition events) and chain/SIR models, exact mode, 2 paths each, "
         "non-trivial when >= 5 accepted steps and some step had >= 2 clocks; chain: 1-2 independent families of 2-4 compartments, "
         "individual-level linear rates on a random progression graph (chain + optional skip/back/competing edges), rates in [0.25, 4], "
         "3-30 individuals per family all starting in one compartment, t0 in {0, 1.5}, horizon with 0.3-2 expected jumps per individual, "
-        "observed by scalar horizon (state read from the raw path) or by a time grid; SIR: S0 3-40, I0 1-3, beta in [0.5, 4], gamma in "
+        "observed by a horizon (number, numpy float64 / float32, int, one-element list / tuple: state read from the raw path, first step "
+        "judged by the one-step law) or by a grid (from t0 / after t0 / one point / non-uniform / repeated times / t0 twice / a point "
+        "before t0 / integer-valued; ndarray f64, f32, int / list / tuple), plan cycled over the cases, judged at every requested time "
+        ">= t0; 30% of the families declare a zero-rate event first; 2 of 8 horizons (5, 12 expected jumps) lie beyond absorption; "
+        "calls of 500 / 250 / 7 / 1 iterations; `boundary` cases of `boundary_runs` paths with horizon / grid ending at t0; SIR: S0 3-40, I0 1-3, beta in [0.5, 4], gamma in "
         "[0.5, 2], frequency- or density-dependent infection, run to extinction; `runs` real paths per case; half of the chain / SIR "
         "cases are sessions (history before the judged batch: other parameters / restore / other initial values / tau-leap with "
         "left-over pre_tau and epsilon / other grid / sibling instance / distributions then numbers / integrate / deepcopy; target "
         "values assigned as dict / list / array / pairs / two dicts), x0 as list / tuple / ndarray of int / float / int32, t0 as "
-        "float64 / int64 / float32, horizon as float / numpy float / one-element list or tuple / grid (array, list, tuple); `par` "
+        "float64 / int64 / float32, horizon / grid forms as above; a chain case is non-trivial with >= 1000 runs (300 in parallel) and a judged time after t0; `par` "
         "small-population cases of `par_runs` paths through parallel=True; replay cases are sessions of the shared engine")
 ASSUMPTIONS = ["numpy's standard_exponential produces independent Exp(1) variates (hypothesis of the clock theorems; floats treated as reals)",
                "parallel path / seed=True: generators seeded from OS entropy (one per draw on the unchanged tree) give independent uniform streams; "
@@ -136,8 +161,8 @@ class Cells:
         for name, c, n, p in self.cells:
             lo, hi = binom_region(n, p, a)
             if not (lo <= c <= hi):
-                sd = math.sqrt(max(n * p * (1 - p), 1e-300))
-                bad.append((name, c, n, p, lo, hi, (c - n * p) / sd))
+                var = n * p * (1 - p)
+                bad.append((name, c, n, p, lo, hi, (c - n * p) / math.sqrt(var) if var > 0 else math.copysign(float("inf"), c - n * p)))
         bad.sort(key=lambda b: -abs(b[6]))
         return bad
 
@@ -174,7 +199,22 @@ RATE_GRID = [0.25, 0.375, 0.5, 0.75, 1.0, 1.25, 1.5, 2.0, 2.5, 3.0, 4.0]
 X0_FORMS = ["arr_int", "arr_int", "arr_f64", "arr_f64", "list_int", "list_float", "list_float", "tuple_int", "tuple_float", "arr_i32"]
 T0_FORMS = ["np_f64", "np_f64", "np_f64", "np_i64", "np_f32"]
 HISTORY_KINDS = ["params", "params", "params", "restore", "iv", "tau_leftover", "grid", "sibling", "stoch_then_numbers", "determ", "deepcopy"]
-SCALAR_HORIZONS = ("scalar", "np_f64", "list1", "tuple1")
+# a horizon (the raw path is returned): number / numpy scalar / one-element list or tuple.  Everything else is a GRID of output times
+SCALAR_HORIZONS = ("scalar", "np_f64", "np_f32", "int", "list1", "tuple1")
+# the time argument of the judged batch.  The plans are CYCLED over the cases of a run (not drawn): every run of the check sees every
+# shape - grids starting at t0, after t0, with one point, non-uniform, with repeated times, with a point before t0, integer-valued,
+# each as ndarray / list / tuple - and the law is judged at EVERY requested time
+CHAIN_TIME_PLAN = [("scalar", None), ("grid", "after_t0"), ("grid", "one_point"), ("np_f64", None), ("grid", "from_t0"), ("grid", "after_t0_3"),
+                   ("list1", None), ("grid", "nonuniform"), ("grid", "repeated"), ("tuple1", None), ("grid", "int"), ("grid", "before_t0"),
+                   ("grid", "t0_twice"), ("np_f32", None), ("grid", "nonuniform_after_t0"), ("int", None)]
+SIR_TIME_PLAN = [("scalar", None), ("grid", "after_t0"), ("np_f64", None), ("grid", "one_point"), ("list1", None), ("grid", "from_t0"),
+                 ("grid", "repeated"), ("tuple1", None)]
+# horizons at or before the initial time (no event can be recorded: the state reported for T == t0 is the initial state with
+# probability one; T < t0 is outside the property and only tagged)
+BOUNDARY_PLAN = [("scalar", "at_t0"), ("grid", "one_point_t0"), ("grid", "all_t0"), ("list1", "at_t0"), ("grid", "ends_at_t0"), ("scalar", "before_t0"),
+                 ("np_f64", "at_t0"), ("grid", "before_and_at_t0")]
+GRID_FORMS = ["array", "array", "list", "tuple", "array_f32"]
+CHUNKS = [500, 500, 500, 500, 500, 250, 7, 1]        # iterations per solve_stochast call of the judged batch
 
 
 def other_rate(r, v):
@@ -196,7 +236,71 @@ def gen_forms(r, g, t0):
     g["t0_form"] = r.choice(T0_FORMS)
 
 
-def gen_chain(r, runs, alpha, *, warm=200, session_share=0.5, max_n=30):
+def _f32(v):
+    return float(np.float32(v))
+
+
+def gen_times(r, hk, shape, t0, t1):
+    """the requested times of a case: {"values": [...], "form": container of a grid | None}.  t1 > t0 is the nominal horizon."""
+    d = t1 - t0
+    a = t0 + 0.4 * d
+    if hk != "grid":
+        T = {"at_t0": t0, "before_t0": t0 - 0.5 * d}.get(shape, t1)
+        if hk == "np_f32":
+            T = _f32(T)
+        if hk == "int":
+            T = float(int(t0) + max(1, int(round(d))))
+        return {"values": [float(T)], "form": None}
+    form = r.choice(GRID_FORMS)
+    if shape == "from_t0":
+        v = [t0, a, t1]
+    elif shape == "after_t0":
+        v = [a, t1]
+    elif shape == "after_t0_3":
+        v = [t0 + 0.15 * d, t0 + 0.5 * d, t1]
+    elif shape == "one_point":
+        v = [t1]
+        form = r.choice(["array", "array", "array_f32"])          # a one-element list / tuple is a horizon, not a grid
+    elif shape in ("nonuniform", "nonuniform_after_t0"):
+        v = sorted([t0 + d * r.choice([0.02, 0.05, 0.1, 0.2, 0.3]), t0 + d * r.choice([0.35, 0.5, 0.6]), t0 + d * r.choice([0.7, 0.85, 0.97]), t1])
+        if shape == "nonuniform":
+            v = [t0] + v
+        if r.random() < 0.5:
+            del v[r.randrange(1, len(v) - 1)]
+    elif shape == "repeated":
+        v = r.choice([[a, a, t1], [t0, a, a, t1], [a, t1, t1], [a, a], [t0, a, t1, t1]])
+    elif shape == "t0_twice":
+        v = r.choice([[t0, t0, t1], [t0, t0, a, t1]])
+    elif shape == "before_t0":
+        v = r.choice([[t0 - 0.5 * d, a, t1], [t0 - 1.0, t0, t1], [t0 - 0.25, t1]])
+    elif shape == "int":
+        base = int(t0)
+        v = r.choice([[base + 1, base + 2, base + 4], [base, base + 1, base + 3], [base + 1, base + 3], [base + 2]])
+        form = r.choice(["array_int", "list_int", "tuple_int"]) if len(v) > 1 else "array_int"
+    elif shape == "one_point_t0":
+        v, form = [t0], "array"
+    elif shape == "all_t0":
+        v = [t0, t0]
+    elif shape == "ends_at_t0":
+        v = [t0 - 1.0, t0]
+    elif shape == "before_and_at_t0":
+        v = [t0 - 2.0, t0 - 1.0, t0, t0]
+    else:
+        raise ValueError("unknown grid shape %r" % shape)
+    v = [float(x) for x in v]
+    if form == "array_f32":
+        w = [_f32(x) for x in v]
+        # rounding to float32 must not move a point across t0 or merge two points: otherwise hand the grid over as float64
+        if all((x > t0) == (y > t0) and (x < t0) == (y < t0) for x, y in zip(v, w)) and all((w[i] < w[i + 1]) == (v[i] < v[i + 1]) for i in range(len(v) - 1)):
+            v = w
+        else:
+            form = "array"
+    return {"values": v, "form": form}
+
+
+def gen_chain(r, runs, alpha, *, warm=200, session_share=0.5, max_n=30, plan=None, chunk=None):
+    hk, shape = plan if plan is not None else r.choice(CHAIN_TIME_PLAN)
+    slow = shape == "int" or hk == "int"                 # integer-valued times: rates from the lower half of the grid
     nf = r.choice([1, 1, 2])
     fams, pv, x0 = [], {}, []
     names = [["A", "B", "C", "D"], ["U", "V", "W", "Z"]]
@@ -215,27 +319,39 @@ def gen_chain(r, runs, alpha, *, warm=200, session_share=0.5, max_n=30):
         el = []
         for (i, j) in edges:
             p = "k%d%s%s" % (f, st[i], st[j])
-            pv[p] = r.choice(RATE_GRID)
+            pv[p] = r.choice(RATE_GRID[:4] if slow else RATE_GRID)
             el.append((i, j, p))
         n = r.randint(3, max_n)
         start = 0 if r.random() < 0.8 else r.randrange(k - 1)
+        if r.random() < 0.3:
+            # an event whose rate is identically zero (parameter value 0), declared BEFORE the events that fire: it must never be booked
+            free = [(i, j) for i in range(k) for j in range(k) if i != j and (i, j) not in edges]
+            if free:
+                i, j = r.choice(free)
+                p = "z%d%s%s" % (f, st[i], st[j])
+                pv[p] = 0.0
+                el.insert(0, (i, j, p))
         fams.append({"states": st, "edges": el, "n": n, "start": start})
         x0 += [n if i == start else 0 for i in range(k)]
-    mean_rate = sum(pv.values()) / len(pv)
-    t0 = r.choice([0.0, 0.0, 1.5])
-    u = r.choice([0.3, 0.6, 1.0, 1.5, 2.0])
+    live = [v for v in pv.values() if v > 0]
+    mean_rate = sum(live) / len(live)
+    t0 = r.choice([0.0, 2.0]) if slow else r.choice([0.0, 0.0, 1.5])
+    # expected jumps per individual; the long horizons lie beyond absorption for most paths (a path that ends early must keep its last event)
+    u = r.choice([0.3, 0.6, 1.0, 1.5, 2.0, 2.0, 5.0, 12.0])
     t1 = t0 + u / mean_rate
-    kind = r.choice(["scalar", "scalar", "np_f64", "list1", "tuple1", "grid_array", "grid_list", "grid_tuple"])
-    times = [t1] if kind in SCALAR_HORIZONS else [t0 + 0.4 * (t1 - t0), t1]
-    g = {"kind": "chain", "families": fams, "params": pv, "x0": x0, "t0": t0, "times": times, "horizon_kind": kind,
-         "runs": runs, "np_seed": r.randrange(2 ** 31), "alpha": alpha}
+    tm = gen_times(r, hk, shape, t0, t1)
+    g = {"kind": "chain", "families": fams, "params": pv, "x0": x0, "t0": t0, "times": tm["values"], "horizon_kind": hk, "grid_shape": shape,
+         "grid_form": tm["form"], "runs": runs, "np_seed": r.randrange(2 ** 31), "alpha": alpha, "chunk": chunk if chunk is not None else r.choice(CHUNKS)}
+    if g["chunk"] == 1:
+        g["runs"] = min(runs, 2000)
     gen_forms(r, g, t0)
     if r.random() < session_share:
         g["history"] = gen_history(r, {p: other_rate(r, v) for p, v in pv.items()}, warm, [v + 3 if v else 0 for v in x0])
     return g
 
 
-def gen_sir(r, runs, alpha, *, warm=200, session_share=0.5, s0_choices=(3, 5, 8, 12, 15, 20, 30, 40)):
+def gen_sir(r, runs, alpha, *, warm=200, session_share=0.5, s0_choices=(3, 5, 8, 12, 15, 20, 30, 40), plan=None, chunk=None):
+    hk, shape = plan if plan is not None else r.choice(SIR_TIME_PLAN)
     s0 = r.choice(list(s0_choices))
     i0 = r.choice([1, 1, 2, 3])
     r0 = r.choice([0, 0, 4])
@@ -250,9 +366,27 @@ def gen_sir(r, runs, alpha, *, warm=200, session_share=0.5, s0_choices=(3, 5, 8,
     else:
         beta = max(1, round(R0 * gamma / N * 1024)) / 1024.0
         pop = 1.0
+    t0 = r.choice([0.0, 2.0])
+    T = 1.0e6
+    if hk == "grid":
+        form = r.choice(["array", "list", "tuple"])
+        if shape == "from_t0":
+            v = [t0, t0 + 1.0, T]
+        elif shape == "after_t0":
+            v = r.choice([[t0 + 1.0, T], [t0 + 0.25, t0 + 1.0e3, T]])
+        elif shape == "one_point":
+            v, form = [T], "array"
+        elif shape == "repeated":
+            v = r.choice([[t0 + 1.0, T, T], [t0, t0, T], [t0 + 0.5, t0 + 0.5, T]])
+        else:
+            raise ValueError("unknown SIR grid shape %r" % shape)
+    else:
+        v, form = [T], None
     g = {"kind": "sir", "rate_kind": kind, "s0": s0, "i0": i0, "r0": r0, "beta": beta, "gamma": gamma, "N": float(N),
-         "pop": pop, "t0": r.choice([0.0, 2.0]), "T": 1.0e6, "horizon_kind": r.choice(["scalar", "scalar", "np_f64", "list1", "grid_list", "grid_tuple"]),
-         "runs": runs, "np_seed": r.randrange(2 ** 31), "alpha": alpha}
+         "pop": pop, "t0": t0, "T": T, "times": [float(x) for x in v], "horizon_kind": hk, "grid_shape": shape, "grid_form": form,
+         "runs": runs, "np_seed": r.randrange(2 ** 31), "alpha": alpha, "chunk": chunk if chunk is not None else r.choice(CHUNKS)}
+    if g["chunk"] == 1:
+        g["runs"] = min(runs, 2000)
     gen_forms(r, g, g["t0"])
     if r.random() < session_share:
         f = 4.0 if R0 <= 1.5 else 0.25                 # the other basic reproduction number is on the other side of 1.5
@@ -263,13 +397,17 @@ def gen_sir(r, runs, alpha, *, warm=200, session_share=0.5, s0_choices=(3, 5, 8,
 def gen_par(r, runs, alpha):
     """a small-population case simulated through solve_stochast(..., parallel=True)"""
     if r.random() < 0.7:
-        g = gen_chain(r, runs, alpha, session_share=0.0, max_n=8)
-        g["horizon_kind"] = r.choice(["scalar", "scalar", "grid_list"])
-        g["times"] = [g["times"][-1]] if g["horizon_kind"] == "scalar" else [g["t0"] + 0.4 * (g["times"][-1] - g["t0"]), g["times"][-1]]
+        g = gen_chain(r, runs, alpha, session_share=0.0, max_n=8, plan=r.choice([("scalar", None), ("scalar", None), ("grid", "after_t0"), ("grid", "from_t0")]), chunk=500)
     else:
-        g = gen_sir(r, runs, alpha, session_share=0.0, s0_choices=(3, 5, 8))
-        g["horizon_kind"] = "scalar"
+        g = gen_sir(r, runs, alpha, session_share=0.0, s0_choices=(3, 5, 8), plan=("scalar", None), chunk=500)
     g["parallel"] = True
+    return g
+
+
+def gen_boundary(r, runs, alpha, plan):
+    """a horizon / grid that ends at (or before) the initial time: nothing can happen, every reported state is the initial state"""
+    g = gen_chain(r, runs, alpha, session_share=0.3, max_n=12, plan=plan, chunk=r.choice([runs, 1, 7]))
+    g["boundary"] = True
     return g
 
 
@@ -286,16 +424,20 @@ def gen_identity(r, pairs, law_draws, alpha, seeded_draws=0):
 
 
 def make_cases(rng, tier, budget, factor=1):
-    nstat = budget["chain"] + budget["sir"] + budget["identity"] + budget.get("par", 0)
+    nstat = budget["chain"] + budget["sir"] + budget["identity"] + budget.get("par", 0) + budget.get("boundary", 0)
     alpha = ALPHA_TOTAL / nstat
     cases = []
     warm = budget.get("warm", 200)
-    ident = [gen_identity(random.Random(rng.getrandbits(64)), budget["pairs"], budget["law_draws"], alpha, budget.get("seeded_draws", 0)) for _ in range(budget["identity"] * factor)]
-    chain = [gen_chain(random.Random(rng.getrandbits(64)), budget["runs"], alpha, warm=warm) for _ in range(budget["chain"] * factor)]
-    sir = [gen_sir(random.Random(rng.getrandbits(64)), budget["runs"], alpha, warm=warm) for _ in range(budget["sir"] * factor)]
-    par = [gen_par(random.Random(rng.getrandbits(64)), budget.get("par_runs", 500), alpha) for _ in range(budget.get("par", 0) * factor)]
+    sub = lambda: random.Random(rng.getrandbits(64))
+    ident = [gen_identity(sub(), budget["pairs"], budget["law_draws"], alpha, budget.get("seeded_draws", 0)) for _ in range(budget["identity"] * factor)]
+    # the time plans are cycled, from an offset that depends on the seed: every run has every shape of horizon / grid
+    oc, os_, ob = rng.randrange(len(CHAIN_TIME_PLAN)), rng.randrange(len(SIR_TIME_PLAN)), rng.randrange(len(BOUNDARY_PLAN))
+    chain = [gen_chain(sub(), budget["runs"], alpha, warm=warm, plan=CHAIN_TIME_PLAN[(oc + i) % len(CHAIN_TIME_PLAN)]) for i in range(budget["chain"] * factor)]
+    sir = [gen_sir(sub(), budget["runs"], alpha, warm=warm, plan=SIR_TIME_PLAN[(os_ + i) % len(SIR_TIME_PLAN)]) for i in range(budget["sir"] * factor)]
+    par = [gen_par(sub(), budget.get("par_runs", 500), alpha) for _ in range(budget.get("par", 0) * factor)]
+    bnd = [gen_boundary(sub(), budget.get("boundary_runs", 40), alpha, BOUNDARY_PLAN[(ob + i) % len(BOUNDARY_PLAN)]) for i in range(budget.get("boundary", 0) * factor)]
     # one of each kind first (the evidence samples the first non-trivial cases), the long statistical cases before the short ones
-    cases = chain[:1] + sir[:1] + ident[:1] + par + chain[1:] + sir[1:] + ident[1:]
+    cases = chain[:1] + sir[:1] + ident[:1] + par + chain[1:] + sir[1:] + bnd + ident[1:]
     n = 0
     while n < budget["replay"] * factor:
         r = random.Random(rng.getrandbits(64))
@@ -313,12 +455,16 @@ def make_cases(rng, tier, budget, factor=1):
                 c["sim"]["x0_form"] = r.choice(X0_FORMS)
                 c["session"] = SC.gen_session(r, base, c["sim"], grid_share=0.25, exact_share=0.8, runs=(2, 3), sibling_base=sib)
         elif pick < 0.85:
-            g = gen_chain(r, 2, 0.0, session_share=0.0)
+            g = gen_chain(r, 2, 0.0, session_share=0.0, plan=("scalar", None))
+            # mostly run to absorption (a path that ends before the horizon); sometimes a horizon AT the initial time (no step, no draw)
+            T_ = g["t0"] if r.random() < 0.06 else g["times"][-1] * 1.5 + 1.0
             c = {"kind": "replay", "model": "chain", "spec": chain_spec(g["families"]), "params": g["params"], "x0": g["x0"],
                  "meta": {"states": [s for f in g["families"] for s in f["states"]]},
-                 "sim": {"mode": "exact", "t0": g["t0"], "T": g["times"][-1] * 1.5 + 1.0, "np_seed": g["np_seed"], "epsilon": None, "pre_tau": None}}
+                 "sim": {"mode": "exact", "t0": g["t0"], "T": T_, "np_seed": g["np_seed"], "epsilon": None, "pre_tau": None}}
+            if r.random() < 0.4:
+                c["sim"]["time"] = SC.gen_grid_time(r, g["t0"], g["times"][-1] * 1.5 + 1.0, max_points=5, after_t0=0.5, past=(0.5, 1, 3))
         else:
-            g = gen_sir(r, 2, 0.0, session_share=0.0)
+            g = gen_sir(r, 2, 0.0, session_share=0.0, plan=("scalar", None))
             c = {"kind": "replay", "model": "sir", "spec": sir_spec(g["rate_kind"]),
                  "params": {"beta": g["beta"], "gamma": g["gamma"], "N": g["pop"]}, "x0": [g["s0"], g["i0"], g["r0"]],
                  "meta": {"states": ["S", "I", "R"]},
@@ -458,6 +604,8 @@ def align_draws(jr, log, rate_fn, mism, tags):
         if len(vals) >= 2:
             multi += 1
         w = int(np.argmin(vals))
+        if np.any(rates[:pos[w]] == 0):
+            tags.append("zero_rate_event_declared_before_the_fired_one")
         fired = np.flatnonzero(np.asarray(J[k]).ravel())
         if len(fired) != 1 or int(fired[0]) != pos[w]:
             mism.append({"what": "step:fired-event-not-first-min", "detail": "%s: clocks %s, first minimum belongs to event %d, counts %s" % (where, vals, pos[w], np.asarray(J[k]).ravel().tolist())})
@@ -560,20 +708,23 @@ def _digest(paths):
 
 class Batch:
     """the outcome of `runs` real exact paths"""
-    X = T = None
+    X = T = J = None
     too_slow = False
     error = None            # ("dask-missing" | exception text) for the parallel path
     overwritten = None      # text when a chunk returned earlier no longer reads as it did
     identical = None        # text when two consecutive replicates with events have identical event times
 
 
-def simulate(model, time_arg, runs, np_seed, budget_s=600.0, *, parallel=False, between=None):
-    """`runs` real exact paths in chunks (one global numpy stream, seeded once).  `between(k)` is called between chunks (a sibling
-    instance simulates there).  parallel=True: pygom's parallel code path (seed=True per replicate) on dask's synchronous scheduler."""
+def simulate(model, time_arg, runs, np_seed, budget_s=600.0, *, parallel=False, between=None, chunk_size=500):
+    """`runs` real exact paths in chunks of `chunk_size` iterations per call (one global numpy stream, seeded once).  `between(k)` is
+    called between chunks, about every 500 paths (a sibling instance simulates there).  parallel=True: pygom's parallel code path
+    (seed=True per replicate) on dask's synchronous scheduler."""
     import contextlib, io
     out = Batch()
     np.random.seed(int(np_seed))
-    out_X, out_T, kept = [], [], []
+    out_X, out_T, out_J, kept = [], [], [], []
+    chunk_size = max(1, int(chunk_size or 500))
+    every = max(1, 500 // chunk_size)
     t_start = time.time()
     done = 0
     sched = contextlib.nullcontext
@@ -587,7 +738,7 @@ def simulate(model, time_arg, runs, np_seed, budget_s=600.0, *, parallel=False, 
             return out
     chunk = 0
     while done < runs:
-        n = min(500, runs - done)
+        n = min(chunk_size, runs - done)
         with contextlib.redirect_stdout(io.StringIO()), sched():
             try:
                 X, J, T = model.solve_stochast(time_arg() if callable(time_arg) else time_arg, n, exact=True, full_output=True, parallel=parallel)
@@ -599,18 +750,19 @@ def simulate(model, time_arg, runs, np_seed, budget_s=600.0, *, parallel=False, 
         kept.append((X, _digest(X), Tl if isinstance(T, list) else None, _digest(Tl) if isinstance(T, list) else None))
         out_X += X
         out_T += Tl
+        out_J += list(J)
         done += n
         chunk += 1
-        if between is not None and done < runs:
+        if between is not None and done < runs and chunk % every == 0:
             between(chunk)
         if time.time() - t_start > budget_s and done < runs:
             out.too_slow = True
             return out
     for k, (X, dX, Tl, dT) in enumerate(kept):
         if _digest(X) != dX or (Tl is not None and _digest(Tl) != dT):
-            out.overwritten = "chunk %d of %d (paths %d..%d) no longer reads as it did when it was returned" % (k, len(kept), 500 * k, 500 * k + len(X) - 1)
+            out.overwritten = "chunk %d of %d (paths %d..%d) no longer reads as it did when it was returned" % (k, len(kept), chunk_size * k, chunk_size * k + len(X) - 1)
             break
-    out.X, out.T = out_X, out_T
+    out.X, out.T, out.J = out_X, out_T, out_J
     return out
 
 
@@ -625,19 +777,30 @@ def identical_replicates(X, T, raw):
     return None
 
 
-def horizon_arg(hk, t0, times):
+def upgrade(case):
+    """cases stored before the grids were generalised: horizon_kind grid_array / grid_list / grid_tuple meant the grid [t0] + times"""
+    hk = case.get("horizon_kind", "scalar")
+    if hk.startswith("grid_"):
+        case = dict(case, horizon_kind="grid", grid_shape="from_t0", grid_form=hk.split("_", 1)[1])
+        if case.get("kind") == "chain":
+            case["times"] = [float(case["t0"])] + [float(t) for t in case["times"]]
+        else:
+            case["times"] = [float(case["t0"]), float(case["t0"]) + 1.0, float(case["T"])]
+    elif case.get("kind") == "sir" and "times" not in case:
+        case = dict(case, times=[float(case["T"])])
+    return case
+
+
+def time_arg_of(case):
     """a callable returning a NEW object for the time argument on every call"""
-    t1 = float(times[-1])
-    if hk == "scalar":
-        return lambda: t1
-    if hk == "np_f64":
-        return lambda: np.float64(t1)
-    if hk == "list1":
-        return lambda: [t1]
-    if hk == "tuple1":
-        return lambda: (t1,)
-    g = [float(t0)] + [float(t) for t in times]
-    return {"grid_array": lambda: np.array(g), "grid_list": lambda: list(g), "grid_tuple": lambda: tuple(g)}[hk]
+    hk, v = case["horizon_kind"], [float(t) for t in case["times"]]
+    t1 = v[-1]
+    if hk == "grid":
+        return {"array": lambda: np.array(v), "list": lambda: list(v), "tuple": lambda: tuple(v), "array_f32": lambda: np.array(v, dtype=np.float32),
+                "array_int": lambda: np.array([int(x) for x in v]), "list_int": lambda: [int(x) for x in v],
+                "tuple_int": lambda: tuple(int(x) for x in v)}[case.get("grid_form") or "array"]
+    return {"scalar": lambda: t1, "np_f64": lambda: np.float64(t1), "np_f32": lambda: np.float32(t1), "int": lambda: int(t1),
+            "list1": lambda: [t1], "tuple1": lambda: (t1,)}[hk]
 
 
 def build_pdict_around(params, dist):
@@ -694,8 +857,8 @@ class Configured:
     def _history(self, h):
         import contextlib, io
         case, k, warm = self.case, h["kind"], int(h["warm"])
-        t_far = case["times"][-1] if "times" in case else case["T"]
-        targ = horizon_arg(case["horizon_kind"], self.t0, case["times"] if "times" in case else [self.t0 + 1.0, case["T"]])
+        t_far = max(float(case["times"][-1]), self.t0 + 1e-3)
+        targ = time_arg_of(case)
         np.random.seed(int(h["np_seed"]))
         restore_params = False
         if k == "params":
@@ -717,7 +880,9 @@ class Configured:
             self.tags.append("exact_with_leftover_tau_config")
         elif k == "grid":
             span = (float(t_far) - self.t0) if float(t_far) < 1e5 else 3.0
-            self._warm(lambda: np.array([self.t0, self.t0 + 0.3 * span, self.t0 + 0.7 * span, self.t0 + 1.3 * span]), warm // 2)
+            # another grid (from t0 / from later / one point) and another horizon than those of the judged batch
+            og = [self.t0, self.t0 + 0.3 * span, self.t0 + 0.7 * span, self.t0 + 1.3 * span][(0, 1, 3)[h["np_seed"] % 3]:]
+            self._warm(lambda: np.array(og), warm // 2)
             self._warm(lambda: self.t0 + 0.5 * span, warm // 2)
         elif k == "sibling":
             sib = self._sibling(h)
@@ -795,44 +960,138 @@ def occupancy_reference(fam, params, dt):
     return [float(v / tot) for v in row], float(abs(tot - 1))
 
 
+def rows_at(case, X, T, t0, tags, viol, what, nS):
+    """(judged, dup, occ): judged = [(row index, time)] of the distinct requested times >= t0, dup = [(first row, later row)] of
+    repeated times, occ[row index] = array runs x states of the state reported for that time.  Scalar horizon: the state is read
+    from the raw path (last recorded state at or before the time); grid: row i of the returned array belongs to grid time i."""
+    times = [float(t) for t in case["times"]]
+    raw = case["horizon_kind"] != "grid"
+    judged, dup, seen = [], [], {}
+    for ti, t in enumerate(times):
+        if t < t0:
+            tags.append("requested-time-before-t0:not-judged")     # outside the property (the unchanged tree reports the initial state)
+        elif t in seen:
+            dup.append((seen[t], ti))
+        else:
+            seen[t] = ti
+            judged.append((ti, t))
+    occ = {}
+    if raw:
+        for ti, t in judged:
+            rows = []
+            for x, tt in zip(X, T):
+                x, tt = np.asarray(x, float), np.asarray(tt, float)
+                rows.append(x[max(int(np.searchsorted(tt, t, side="right")) - 1, 0)])
+            occ[ti] = np.array(rows).reshape(len(X), nS)
+        return judged, dup, occ
+    shapes = set(np.asarray(x).shape for x in X)
+    if shapes != {(len(times), nS)}:
+        viol.append({"what": "a grid of %d output times does not give arrays of %d rows" % (len(times), len(times)), "signature": "C05:%s:grid-shape" % what,
+                     "detail": "grid %s (%s): returned shapes %s" % (times, case.get("grid_form"), sorted(shapes)[:3])})
+        return None, None, None
+    A = np.array([np.asarray(x, float) for x in X])
+    for ti in range(len(times)):
+        occ[ti] = A[:, ti, :]
+    return judged, dup, occ
+
+
+def cell_class(name, default):
+    """the part of the law a failing cell belongs to (goes into the signature)"""
+    if name.startswith("first "):
+        return "first-step"
+    if name.startswith("runs that book event"):
+        return "zero-rate-event-booked"
+    if "both for t=" in name:
+        return "repeated-time-rows-differ"
+    return default
+
+
+def first_step_cells(cells, rates0, J, T, t0, horizon, runs, label):
+    """the property's first sentence at the initial state, on the raw output, up to the horizon (a step recorded beyond the horizon
+    counts as "no event by the horizon", so a tree that does not record the overshooting step is judged alike): with R = sum r and
+    d = horizon - t0, P(no event by the horizon) = exp(-R d), P(first event is e, by the horizon) = r_e / R * (1 - exp(-R d)), and
+    the first waiting time falls into the part below d of each octile of Exp(R) with that part's probability; an event with rate
+    zero at the initial state is never the first"""
+    R = float(sum(rates0))
+    d = float(horizon) - float(t0)
+    if not (d > 0):
+        return
+    nE = len(rates0)
+    if R <= 0:
+        cells.add(label + "first step: runs with an event by the horizon although no event has a positive rate at the initial state",
+                  sum(1 for tt in T if len(np.atleast_1d(tt)) > 1 and float(np.atleast_1d(tt)[1]) <= horizon), runs, 0.0)
+        return
+    first, wait, none = [], [], 0
+    for j, tt in zip(J, T):
+        tt = np.atleast_1d(np.asarray(tt, float))
+        j = np.asarray(j).reshape(-1, nE) if np.asarray(j).size else np.zeros((0, nE))
+        if len(tt) < 2 or len(j) < 1 or not (tt[1] <= horizon):
+            none += 1
+            continue
+        w = np.flatnonzero(j[0])
+        first.append(int(w[0]) if len(w) == 1 and j[0][w[0]] == 1 else -1)
+        wait.append(float(tt[1] - tt[0]))
+    F = lambda x: -math.expm1(-R * min(max(x, 0.0), d))            # P(first waiting time <= min(x, d))
+    cells.add(label + "first step: runs without an event by the horizon (total rate %r at the initial state, %r to go)" % (R, d), none, runs, math.exp(-R * d))
+    first = np.array(first, int)
+    cells.add(label + "first step does not book exactly one event", int(np.sum(first < 0)), runs, 0.0)
+    for e in range(nE):
+        cells.add(label + "first event (by the horizon) is event %d (rate %r of total %r at the initial state)" % (e, float(rates0[e]), R),
+                  int(np.sum(first == e)), runs, float(rates0[e]) / R * F(d))
+    edges = [0.0] + [-math.log1p(-k / 8.0) / R for k in range(1, 8)] + [float("inf")]
+    wt = np.array(wait, float)
+    cnt = np.bincount(np.searchsorted(edges[1:-1], wt, side="right"), minlength=8)
+    for k in range(8):
+        cells.add(label + "first waiting time (by the horizon) in octile %d of Exp(total rate %r)" % (k, R), cnt[k], runs, max(0.0, F(edges[k + 1]) - F(edges[k])))
+    cells.add(label + "first waiting time <= 0", int(np.sum(wt <= 0)), runs, 0.0)
+
+
 def run_chain(case):
     from scipy import stats as st
-    tags, mism, viol = ["kind:chain", "horizon:" + case["horizon_kind"], "families=%d" % len(case["families"])], [], []
+    case = upgrade(case)
+    hk = case["horizon_kind"]
+    tags, mism, viol = ["kind:chain", "horizon:" + hk, "families=%d" % len(case["families"])], [], []
+    if hk == "grid": tags += ["grid_shape:%s" % case.get("grid_shape"), "grid_form:%s" % case.get("grid_form")]
+    if case.get("boundary"): tags += ["boundary", "boundary:%s:%s" % (hk, case.get("grid_shape"))]
     if case.get("parallel"): tags.append("parallel")
     spec = chain_spec(case["families"])
     t0 = float(case["t0"])
     cfg = Configured(spec, case["params"], case["x0"], t0, case, tags)
     model = cfg.model
     times = [float(t) for t in case["times"]]
-    hk = case["horizon_kind"]
-    raw = hk in SCALAR_HORIZONS
+    raw = hk != "grid"
     runs = int(case["runs"])
-    out = simulate(model, horizon_arg(hk, t0, times), runs, case["np_seed"], parallel=bool(case.get("parallel")), between=cfg.between)
+    chunk = int(case.get("chunk") or 500)
+    tags.append("iterations-per-call:%s" % ("1" if chunk == 1 else "2..249" if chunk < 250 else ">=250"))
+    nS = len(case["x0"])
+    events = [(f_i, i, j, p) for f_i, f in enumerate(case["families"]) for (i, j, p) in f["edges"]]
+    nE = len(events)
+    dead = [e for e, ev in enumerate(events) if float(case["params"][ev[3]]) == 0.0]
+    if dead: tags.append("zero-rate-event-declared" + ("-first" if 0 in dead else ""))
+    out = simulate(model, time_arg_of(case), runs, case["np_seed"], parallel=bool(case.get("parallel")), between=cfg.between, chunk_size=chunk)
     if cfg.input_modified(): tags.append("input-modified:x0")
     if batch_problems(out, case, tags, mism, viol, "chain"):
         return {"nontrivial": False, "mismatches": mism, "violations": viol, "tags": tags}
-    X, T = out.X, out.T
+    X, T, J = out.X, out.T, out.J
     same_rep = identical_replicates(X, T, raw)
     if same_rep:
         viol.append({"what": "two replicates of one call follow the same path", "signature": "C05:chain:identical-replicates" + sig_suffix(case), "detail": same_rep})
-    # occupancy at each observation time, per run
-    occ = []
-    for ti, t in enumerate(times):
-        rows = []
-        for x, tt in zip(X, T):
-            x = np.asarray(x, float)
-            if raw:
-                tt = np.asarray(tt, float)
-                rows.append(x[int(np.searchsorted(tt, t, side="right")) - 1])
-            else:
-                rows.append(x[ti + 1])
-        occ.append(np.array(rows))
+    judged, dup, occ = rows_at(case, X, T, t0, tags, viol, "chain", nS)
+    if judged is None:
+        return {"nontrivial": False, "mismatches": mism, "violations": viol, "tags": tags}
+    if any(t == t0 for _, t in judged): tags.append("judged-at-t0")
+    if not raw and judged and judged[0][0] == 0 and judged[0][1] > t0: tags.append("grid-starts-after-t0")
     cells = Cells(case["alpha"])
+    for (a, b) in dup:
+        tags.append("repeated-grid-time")
+        cells.add("runs whose rows %d and %d (both for t=%r) differ" % (a, b, times[a]), int(np.sum(np.any(occ[a] != occ[b], axis=1))), runs, 0.0)
     col = 0
     total_events = 0
     for f in case["families"]:
         k, n = len(f["states"]), int(f["n"])
-        for ti, t in enumerate(times):
+        src = set(i for (i, j, p) in f["edges"] if float(case["params"][p]) > 0)
+        dst = set(j for (i, j, p) in f["edges"] if float(case["params"][p]) > 0)
+        for ti, t in judged:
             p, err = occupancy_reference(f, case["params"], t - t0)
             if err > 1e-30:
                 mism.append({"what": "reference:expm", "detail": "row sum of expm off by %g" % err})
@@ -844,7 +1103,7 @@ def run_chain(case):
             # individuals are conserved by every event of the family; a path that lost some has left the chain's state space
             cells.add("family %s t=%r: runs whose family total is not %d" % (f["states"][0], t, n), len(bad_tot), runs, 0.0)
             for c in range(k):
-                name = "state %s at t=%r" % (f["states"][c], t)
+                name = "state %s at t=%r (requested time %d of %d)" % (f["states"][c], t, ti + 1, len(times))
                 tot = int(np.clip(o[:, c], 0, None).sum())
                 cells.add(name + ": individuals over all runs", tot, runs * n, p[c])
                 pm = st.binom.pmf(np.arange(n + 1), n, p[c])
@@ -852,22 +1111,47 @@ def run_chain(case):
                 for v in range(n + 1):
                     cells.add(name + ": runs with exactly %d" % v, cnt[v], runs, pm[v])
                 cells.add(name + ": runs with a negative count", int(np.sum(o[:, c] < 0)), runs, 0.0)
+        # along one path: a compartment nobody enters only loses individuals, one nobody leaves only gains them
+        for (ta, _), (tb, _) in zip(judged, judged[1:]):
+            for c in range(k):
+                if c not in dst:
+                    cells.add("state %s (no way in): runs where it grows between requested times %d and %d" % (f["states"][c], ta + 1, tb + 1),
+                              int(np.sum(occ[tb][:, col + c] > occ[ta][:, col + c])), runs, 0.0)
+                if c not in src:
+                    cells.add("state %s (no way out): runs where it shrinks between requested times %d and %d" % (f["states"][c], ta + 1, tb + 1),
+                              int(np.sum(occ[tb][:, col + c] < occ[ta][:, col + c])), runs, 0.0)
         col += k
+    # the events booked (full_output): an event whose rate is identically zero is never chosen
+    for e in dead:
+        booked = sum(1 for j in J if np.asarray(j).size and np.any(np.asarray(j).reshape(-1, nE)[:, e] != 0))
+        cells.add("runs that book event %d (%s -> %s with rate parameter 0)" % (e, case["families"][events[e][0]]["states"][events[e][1]],
+                                                                              case["families"][events[e][0]]["states"][events[e][2]]), booked, runs, 0.0)
+    absorbed = None
+    if raw:
+        total_events = sum(len(np.atleast_1d(tt)) - 1 for tt in T)
+        x0v = [float(v) for v in case["x0"]]
+        offs = np.cumsum([0] + [len(f["states"]) for f in case["families"]])
+        rates0 = [float(case["params"][p]) * x0v[offs[f_i] + i] for (f_i, i, j, p) in events]
+        first_step_cells(cells, rates0, J, T, t0, times[-1], runs, "")
+        absorbed = sum(1 for tt in T if float(np.atleast_1d(tt)[-1]) < times[-1]) / float(runs)
+        if absorbed > 0.5: tags.append("most-paths-absorbed-before-the-horizon")
     bad = cells.judge()
     if bad:
         b = bad[0]
-        viol.append({"what": "occupancy of independent chains at time t is not multinomial(expm(Q t)): %s" % b[0],
-                     "signature": "C05:chain:occupancy" + sig_suffix(case),
+        cls = cell_class(b[0], "occupancy")
+        viol.append({"what": ("occupancy of independent chains at time t is not multinomial(expm(Q t)): %s" if cls == "occupancy" else
+                              "the simulated paths do not follow the chain's law: %s") % b[0],
+                     "signature": "C05:chain:%s" % cls + sig_suffix(case),
                      "detail": "observed %d of %d, reference probability %.6g, exact acceptance region [%d, %d], z = %.1f; %d of %d cells fail; "
-                               "families %s params %s x0 %s (%s) t0 %r times %s history %s"
+                               "families %s params %s x0 %s (%s) t0 %r requested times %s (%s %s %s) %d iterations per call, history %s"
                                % (b[1], b[2], b[3], b[4], b[5], b[6], len(bad), len(cells.cells), case["families"], case["params"], case["x0"],
-                                  case.get("x0_form"), t0, times, case.get("history"))})
-    if raw:
-        total_events = sum(len(tt) - 1 for tt in T)
-    return {"nontrivial": runs >= (300 if case.get("parallel") else 1000), "mismatches": mism, "violations": viol, "tags": tags,
+                                  case.get("x0_form"), t0, times, hk, case.get("grid_shape"), case.get("grid_form"), chunk, case.get("history"))})
+    nontrivial = runs >= (300 if case.get("parallel") else 1000) and any(t > t0 for _, t in judged)
+    return {"nontrivial": nontrivial, "mismatches": mism, "violations": viol, "tags": tags,
             "sample": {"kind": "chain", "families": [{"states": f["states"], "edges": [(f["states"][i], f["states"][j], case["params"][p]) for i, j, p in f["edges"]],
                                                       "n": f["n"], "start": f["start"]} for f in case["families"]],
-                       "t0": t0, "times": times, "runs": runs, "cells": len(cells.cells), "events_simulated": total_events,
+                       "t0": t0, "times": times, "horizon_kind": hk, "grid_shape": case.get("grid_shape"), "grid_form": case.get("grid_form"), "iterations_per_call": chunk,
+                       "runs": runs, "cells": len(cells.cells), "events_simulated": total_events, "share_absorbed_before_horizon": absorbed,
                        "history": (case.get("history") or {}).get("kind"), "x0_form": case.get("x0_form"), "parallel": bool(case.get("parallel"))}}
 
 
@@ -897,7 +1181,10 @@ def final_size_python(s0, i0, beta, gamma, pop):
 
 
 def run_sir(case):
-    tags, mism, viol = ["kind:sir", "sir:" + case["rate_kind"], "horizon:" + case["horizon_kind"]], [], []
+    case = upgrade(case)
+    hk = case["horizon_kind"]
+    tags, mism, viol = ["kind:sir", "sir:" + case["rate_kind"], "horizon:" + hk], [], []
+    if hk == "grid": tags += ["grid_shape:%s" % case.get("grid_shape"), "grid_form:%s" % case.get("grid_form")]
     s0, i0, r0 = int(case["s0"]), int(case["i0"]), int(case["r0"])
     beta, gamma, pop = Fraction(float(case["beta"])), Fraction(float(case["gamma"])), Fraction(float(case["pop"]))
     lean = leanio.driver().call({"op": "finalsize", "s0": s0, "i0": i0, "beta": SC.q(beta), "gamma": SC.q(gamma), "pop": SC.q(pop)})
@@ -911,17 +1198,24 @@ def run_sir(case):
     cfg = Configured(sir_spec(case["rate_kind"]), {"beta": float(case["beta"]), "gamma": float(case["gamma"]), "N": float(case["pop"])},
                      [s0, i0, r0], t0, case, tags)
     model = cfg.model
-    hk = case["horizon_kind"]
     runs = int(case["runs"])
-    out = simulate(model, horizon_arg(hk, t0, [t0 + 1.0, float(case["T"])]), runs, case["np_seed"], parallel=bool(case.get("parallel")), between=cfg.between)
+    raw = hk != "grid"
+    times = [float(t) for t in case["times"]]
+    chunk = int(case.get("chunk") or 500)
+    tags.append("iterations-per-call:%s" % ("1" if chunk == 1 else "2..249" if chunk < 250 else ">=250"))
+    out = simulate(model, time_arg_of(case), runs, case["np_seed"], parallel=bool(case.get("parallel")), between=cfg.between, chunk_size=chunk)
     if cfg.input_modified(): tags.append("input-modified:x0")
     if batch_problems(out, case, tags, mism, viol, "sir"):
         return {"nontrivial": False, "mismatches": mism, "violations": viol, "tags": tags}
-    X, T = out.X, out.T
-    same_rep = identical_replicates(X, T, hk in SCALAR_HORIZONS)
+    X, T, J = out.X, out.T, out.J
+    same_rep = identical_replicates(X, T, raw)
     if same_rep:
         viol.append({"what": "two replicates of one call follow the same path", "signature": "C05:sir:identical-replicates" + sig_suffix(case), "detail": same_rep})
-    fin = np.array([np.asarray(x, float)[-1] for x in X])
+    judged, dup, occ = rows_at(case, X, T, t0, tags, viol, "sir", 3)
+    if judged is None:
+        return {"nontrivial": False, "mismatches": mism, "violations": viol, "tags": tags}
+    if not raw and judged and judged[0][0] == 0 and judged[0][1] > t0: tags.append("grid-starts-after-t0")
+    fin = occ[judged[-1][0]]                        # the state reported for the last requested time (far beyond extinction)
     alive = fin[:, 1] != 0
     off = (fin.sum(axis=1) != s0 + i0 + r0) | np.any(np.mod(fin, 1) != 0, axis=1)
     z = np.clip(s0 - fin[:, 0], 0, s0).astype(int)
@@ -936,16 +1230,41 @@ def run_sir(case):
         cum += pmf[v]
         if v < s0:
             cells.add("final size <= %d" % v, int(cnt[:v + 1].sum()), runs, min(1.0, cum))
+    # what every path satisfies at every requested time (no closed-form law is used at the intermediate times)
+    x0v = np.array([s0, i0, r0], float)
+    for (a, b) in dup:
+        tags.append("repeated-grid-time")
+        cells.add("runs whose rows %d and %d (both for t=%r) differ" % (a, b, times[a]), int(np.sum(np.any(occ[a] != occ[b], axis=1))), runs, 0.0)
+    for ti, t in judged:
+        o = occ[ti]
+        if t == t0:
+            tags.append("judged-at-t0")
+            cells.add("requested time %d = t0: runs whose reported state is not the initial state" % (ti + 1), int(np.sum(np.any(o != x0v, axis=1))), runs, 0.0)
+        elif t - t0 < 1e3:
+            # every event changes the state and no state is visited twice: the state at t is still the initial one iff no event happened
+            cells.add("requested time %d (t=%r): runs still in the initial state (no event yet: exp(-total rate * (t - t0)))" % (ti + 1, t),
+                      int(np.sum(np.all(o == x0v, axis=1))), runs, math.exp(-float(beta * s0 * i0 / pop + gamma * i0) * (t - t0)))
+        cells.add("requested time %d (t=%r): runs off the state space (total, sign, integrality)" % (ti + 1, t),
+                  int(np.sum((o.sum(axis=1) != s0 + i0 + r0) | np.any(o < 0, axis=1) | np.any(np.mod(o, 1) != 0, axis=1))), runs, 0.0)
+    for (ta, _), (tb, _) in zip(judged, judged[1:]):
+        cells.add("runs where S grows or R shrinks between requested times %d and %d" % (ta + 1, tb + 1),
+                  int(np.sum((occ[tb][:, 0] > occ[ta][:, 0]) | (occ[tb][:, 2] < occ[ta][:, 2]))), runs, 0.0)
+    if raw:
+        rates0 = [float(beta * s0 * i0 / pop), float(gamma * i0)]
+        first_step_cells(cells, rates0, J, T, t0, times[-1], runs, "")
     bad = cells.judge()
     if bad:
         b = bad[0]
-        viol.append({"what": "SIR final size does not follow the embedded jump chain's law: %s" % b[0], "signature": "C05:sir:final-size" + sig_suffix(case),
+        what = cell_class(b[0], "final-size" if ("final" in b[0] or "infectives" in b[0]) else "path-invariant")
+        viol.append({"what": ("SIR final size does not follow the embedded jump chain's law: %s" if what == "final-size" else
+                              "the simulated SIR paths do not follow the chain's law: %s") % b[0], "signature": "C05:sir:%s" % what + sig_suffix(case),
                      "detail": "observed %d of %d, exact probability %.6g, exact acceptance region [%d, %d], z = %.1f; %d of %d cells fail; "
-                               "S0=%d I0=%d R0=%d beta=%r gamma=%r N=%r (%s) x0 as %s history %s"
+                               "S0=%d I0=%d R0=%d beta=%r gamma=%r N=%r (%s) x0 as %s, requested times %s (%s %s %s), %d iterations per call, history %s"
                                % (b[1], b[2], b[3], b[4], b[5], b[6], len(bad), len(cells.cells), s0, i0, r0, case["beta"], case["gamma"], case["pop"], case["rate_kind"],
-                                  case.get("x0_form"), case.get("history"))})
+                                  case.get("x0_form"), times, hk, case.get("grid_shape"), case.get("grid_form"), chunk, case.get("history"))})
     return {"nontrivial": runs >= (300 if case.get("parallel") else 1000), "mismatches": mism, "violations": viol, "tags": tags,
             "sample": {"kind": "sir", "s0": s0, "i0": i0, "beta": case["beta"], "gamma": case["gamma"], "pop": case["pop"], "runs": runs,
+                       "times": times, "horizon_kind": hk, "grid_shape": case.get("grid_shape"), "grid_form": case.get("grid_form"), "iterations_per_call": chunk,
                        "cells": len(cells.cells), "mean_final_size": float(z[ok].mean()) if ok.any() else None,
                        "exact_mean": float(sum(v * p for v, p in enumerate(pmf)))}}
 
